@@ -297,8 +297,9 @@ pub fn run_case<K: HKey>(cfg: &Cfg, prefix: &[Op], opsq: &[Op], only: Option<(us
             Some(i) if models[i + 1] != *m0 => Some(&models[i + 1]),
             _ => None,
         };
-        // every non-empty subset of dirty inodes (the empty subset is the process-kill image of the CRASH engine)
-        for mask in 1u32..(1u32 << dirty.len().min(10)) {
+        // every subset of dirty inodes. The empty subset (everything written so far happens to have reached the disk) is the
+        // process-kill image of the CRASH engine; it is included here whenever unsynced bytes exist at this cut.
+        for mask in (if dirty.is_empty() { 1u32 } else { 0u32 })..(1u32 << dirty.len().min(10)) {
             let lost: Vec<usize> = dirty.iter().enumerate().filter(|(b, _)| mask & (1 << b) != 0).map(|(_, i)| *i).collect();
             let lost_names = names(&lost);
             if let Some((_, want)) = &only {
@@ -364,7 +365,7 @@ pub fn run(tier: &str, slice: (u64, u64), seed: u64) -> WorkerResult {
             }
         }
         if slice.0 == 0 {
-            res.completed.push(format!("{} {}: all {} histories of depth {} over {} symbols, prefix [{}]: every cut x every non-empty subset of files with unsynced bytes", sr.label, sr.cfg.show(), total, depth, sr.alphabet.len(), ops::show_seq::<String>(&sr.prefix)));
+            res.completed.push(format!("{} {}: all {} histories of depth {} over {} symbols, prefix [{}]: every cut x every subset of files with unsynced bytes (the empty subset only where unsynced bytes exist)", sr.label, sr.cfg.show(), total, depth, sr.alphabet.len(), ops::show_seq::<String>(&sr.prefix)));
         }
     }
     res
